@@ -55,13 +55,13 @@ def obligations(tier):
         dict(engine="verus", unit="newthread", function="Thread::new_thread::construct", name="C13/thread/new_thread_construct", source="vm/src/thread.rs::Thread::new_thread (up to the allocation of the new thread)",
              clause="construction step of the thread tree assumed by the clone unit: a spawned thread's parent pointer is its spawner, it shares the spawner's global state, and its collector is exactly one generation younger"),
         # transfer sites: the value stored is the copy deep_clone_value made for the thread that OWNS the channel / cell / lazy value
-        dict(engine="verus", unit="channel", function="send", name="C13/channel/send", source="vm/src/channel.rs::send",
+        dict(engine="verus", unit="channel", function="send(C13)", name="C13/channel/send", source="vm/src/channel.rs::send",
              clause="transfer site: what is queued is the copy made for the channel's own thread (holdable_by), never the sender's pointer"),
-        dict(engine="verus", unit="reference", function="set", name="C13/reference/set", source="vm/src/reference.rs::set",
+        dict(engine="verus", unit="reference", function="set(C13)", name="C13/reference/set", source="vm/src/reference.rs::set",
              clause="transfer site: what is stored in the cell is the copy made for the reference's own thread"),
-        dict(engine="verus", unit="reference", function="st::set", name="C13/reference/st_set", source="vm/src/reference.rs::st::set",
+        dict(engine="verus", unit="reference", function="st::set(C13)", name="C13/reference/st_set", source="vm/src/reference.rs::st::set",
              clause="transfer site (st variant): same"),
-        dict(engine="verus", unit="lazy", function="force::thunk_succeeded", name="C13/lazy/force_thunk_succeeded", source="vm/src/lazy.rs::force (arm: the computation succeeded)",
+        dict(engine="verus", unit="lazy", function="force::thunk_succeeded(C13)", name="C13/lazy/force_thunk_succeeded", source="vm/src/lazy.rs::force (arm: the computation succeeded)",
              clause="transfer site: the computed value stored in a lazy value is the copy made for the lazy value's own thread, not the forcing thread's pointer"),
         v("lemma_full_clone_copies_everything", "after force_full_clone no value of a real heap is ever shared (over the two contracts)", "lemma"),
     ]
